@@ -564,6 +564,10 @@ def string_annotation_cases(out, ck):
         (_fwd_whole, (node, 1), node, (node, "one")),
     ]
     for fn0, good, want, bad in table:
+        if ck == "beartype" and isinstance(bad[0], (list, dict)):
+            # beartype samples ONE item of a container per call: an ill-typed item may go unnoticed; use a value that is
+            # wrong at the top level instead
+            bad = (3.5,) + tuple(bad[1:])
         try:
             g = jaxtyped(typechecker=tc)(fn0)
         except BaseException as e:  # noqa: BLE001
